@@ -546,6 +546,25 @@ package badger
 //@   loop 1 invariant[backwards] i >= -1 && i < len(th)
 //@   assert[last-table-first] before call NewIterator : arg0 == th[i] && arg1 == opt
 
+// getTableForKey: level 0 hands out every table, newest (last) first; a deeper level hands out
+// the first table whose biggest key is at or after the seek key (binary search over tables in
+// key order), or none.
+//@ func (*levelHandler).getTableForKey
+//@   props C01 C12 C21
+//@   light
+//@   loop 1 invariant[backwards] i >= -1 && i < len(s.tables)
+//@   assert[level0-newest-first] before call IncrRef#1 : s.level == 0 && arg0 == s.tables[i] && held(s.RWMutex)
+//@   assert[search-over-all-tables] before call Search : s.level != 0 && arg0 == len(s.tables)
+//@   assert[table-found-by-search] before call IncrRef#2 : arg0 == s.tables[ret(Search#1)] && ret(Search#1) < len(s.tables)
+//@   assert[none-when-beyond-last] before return#2 : result0 == nil && ret(Search#1) >= len(s.tables)
+
+//@ func (*levelHandler).getTableForKey.$2
+//@   props C01 C12
+//@   requires s != nil && 0 <= i && i < len(s.tables) && s.tables[i] != nil
+//@   domain len(s.tables[i].biggest) >= 8 && len(key) >= 8
+//@   ensures[at-or-after-key] result <==> keycmp(s.tables[i].biggest, key) >= 0
+//@   assigns nothing
+
 // ---- managed mode (C36) ----
 
 //@ func (*DB).NewTransactionAt
